@@ -1,11 +1,12 @@
 import Qats.Driver.Rainflow
 import Qats.Driver.FindReversals
 import Qats.Gen.DriverGen
+import Qats.Driver.SN
 /-! All line-protocol handlers (core Lean only; imported by `Driver.lean`). -/
 namespace Qats.Driver
 
 def handlers : List (List String → Option String) :=
-  [Rainflow.handle, FindReversals.handle, Qats.Gen.handleGen]
+  [Rainflow.handle, FindReversals.handle, Qats.Gen.handleGen, SN.handle]
 
 def dispatch (toks : List String) : String :=
   match handlers.findSome? (fun h => h toks) with
